@@ -142,9 +142,14 @@ Definition agrees (c : case) : bool :=
 Definition is_done (r : reply) : bool := match r with RDone => true | _ => false end.
 Definition is_refusal (r : reply) : bool := match r with RDone | RList _ => false | _ => true end.
 
+Fixpoint dedup_h (l : list handle) : list handle :=
+  match l with
+  | [] => []
+  | h :: r => if existsb (handle_eqb h) r then dedup_h r else h :: dedup_h r
+  end.
 Definition handles (c : case) : list handle :=
-  handles_of (c_pre c) ++ handles_of (c_post c) ++ map ob_h (c_obs c)
-  ++ match actor (c_op c) with Some h => [h] | None => [] end.
+  dedup_h (handles_of (c_pre c) ++ handles_of (c_post c) ++ map ob_h (c_obs c)
+           ++ match actor (c_op c) with Some h => [h] | None => [] end).
 
 (** The publisher's objects keyed by the specification's URI identity. *)
 Definition sview (st : state) (h : handle) : objects := map (fun p => (fold (fst p), snd p)) (view st h).
@@ -230,9 +235,10 @@ Definition ok_isolation (c : case) : bool :=
 
 (** No URI (up to scheme/host case) is held by two different publishers. *)
 Definition disjoint_st (hs : list handle) (st : state) : bool :=
+  let vs := map (fun h => (h, sview st h)) hs in
   forallb (fun p => forallb (fun q =>
-    if handle_eqb p q then true
-    else forallb (fun e => match o_get (fst e) (sview st q) with None => true | Some _ => false end) (sview st p)) hs) hs.
+    if handle_eqb (fst p) (fst q) then true
+    else forallb (fun e => match o_get (fst e) (snd q) with None => true | Some _ => false end) (snd p)) vs) vs.
 Definition ok_disjoint (c : case) : bool :=
   if disjoint_st (handles c) (c_pre c) then disjoint_st (handles c) (c_post c) else true.
 
